@@ -1,4 +1,5 @@
 """C11 — accumulating never modifies or aliases caller data; reading is side-effect free."""
+import random
 import numpy as np
 from harness import core, acclib
 
@@ -17,7 +18,9 @@ RULE = ('accumulator type (Minimum, Maximum, Mean, Variance, Covariance, Running
 PARTIAL = ['the ownership model abstracts values away; which numpy primitive allocates is numpy behaviour (assumed, exercised)']
 ASSUMPTIONS = ['np.asarray aliases an ndarray, np.array copies, ufuncs without out= allocate']
 
-KINDS = ['min', 'max', 'mean', 'var', 'cov', 'rmean', 'rvar', 'rcov', 'cdf', 'quantile', 'median', 'binsorter', 'dynbin']
+KINDS = ['min', 'max', 'mean', 'var', 'cov', 'rmean', 'rvar', 'rcov', 'cdf', 'quantile', 'median', 'binsorter', 'dynbin',
+         'cachemax', 'cacheacc', 'reservoir']      # the last three hold objects, not numbers: only "reading is pure" applies to them
+OBJECT_KINDS = ('cachemax', 'cacheacc', 'reservoir')
 STORE_KIND = {'min': 'minmax', 'max': 'minmax', 'mean': 'mean', 'rmean': 'rmean', 'var': 'var', 'rvar': 'rvar', 'cdf': 'p2',
               'quantile': 'p2', 'median': 'p2'}
 
@@ -37,6 +40,13 @@ def make(kind):
         return A.BinSorter([0.0, 1.0, 2.0], A.Mean, key=lambda o: float(np.sum(o)) % 3, datakey=lambda o: o)
     if kind == 'dynbin':
         return A.DynamicBinSorter(2, A.Mean, key=lambda o: float(np.sum(o)), datakey=lambda o: o)
+    if kind == 'cachemax':
+        return A.CacheMaximum(length=4, key=lambda o: o[0], time_key=lambda o: o[1])
+    if kind == 'cacheacc':
+        return A.CacheAccumulator(length=3)
+    if kind == 'reservoir':
+        random.seed(20240611)       # the library draws from the global generator: twins see the same draws
+        return A.ReservoirSampling(3)
     raise ValueError(kind)
 
 
@@ -91,6 +101,11 @@ def snapshot_value(v):
 
 
 def gen_history(rng, kind):
+    if kind in OBJECT_KINDS:
+        n = rng.choice([3, 5, 9, 14])
+        times = rng.sample(range(100), n)
+        # heavily tied keys, arbitrary distinct times: which of two equal keys survives is decided by the time stamps only
+        return [(rng.randint(0, 2), times[i], 'obs%d' % i) for i in range(n)]
     n = rng.choice([2, 3, 5, 8])
     if kind in ('binsorter', 'dynbin'):
         shape = (2,)
@@ -106,7 +121,10 @@ def gen_history(rng, kind):
         if shape == () or (not arrays_only and rng.random() < 0.0):
             hist.append(float(rng.randint(-9, 9)) / 2)
         else:
-            hist.append(np.array([rng.randint(-9, 9) / 2 for _ in range(int(np.prod(shape)))]).reshape(shape))
+            a = np.array([rng.randint(-9, 9) / 2 for _ in range(int(np.prod(shape)))]).reshape(shape)
+            if kind in ('cdf', 'quantile', 'median') and hist and rng.random() < 0.25:
+                a = a.reshape((1,) + tuple(shape))      # same data as a one-row block: broadcasts, and stays the caller's (1, …) array
+            hist.append(a)
     return hist
 
 
@@ -116,15 +134,17 @@ def run_history(kind, hist, mutate_at=None, mutate_which=None, reads=()):
     args = [h.copy() if isinstance(h, np.ndarray) else h for h in hist]
     facts = []
     for i, a in enumerate(args):
-        before = [x.tobytes() if isinstance(x, np.ndarray) else None for x in args]
+        # what the caller can see of its own array: content, shape, dtype, memory layout, writeability
+        sig = lambda x: (x.tobytes(), x.shape, x.strides, x.dtype.str, x.flags.writeable) if isinstance(x, np.ndarray) else None   # noqa
+        before = [sig(x) for x in args]
         if mutate_at == i and mutate_which is not None and isinstance(args[mutate_which], np.ndarray):
             args[mutate_which][...] = 1234.5          # the caller overwrites an earlier argument in place
-            before = [x.tobytes() if isinstance(x, np.ndarray) else None for x in args]
+            before = [sig(x) for x in args]
         if i in reads:
             for _ in range(reads.count(i)):
                 readouts(kind, acc)
         acc.accumulate(a)
-        after = [x.tobytes() if isinstance(x, np.ndarray) else None for x in args]
+        after = [sig(x) for x in args]
         changed = [j for j, (b, c) in enumerate(zip(before, after)) if b != c]
         ints = internals(acc)
         alias = [j for j, x in enumerate(args[:i + 1]) if isinstance(x, np.ndarray) and any(np.shares_memory(x, y) for y in ints)]
